@@ -114,6 +114,10 @@ int cp_shpe_enc_prv(bn_t c, const bn_t m, const shpe_t prv) {
 		return RLC_ERR;
 	}
 #endif
+	/* The plaintext space is [0, n - 1]. */
+	if (bn_sign(m) == RLC_NEG || bn_cmp(m, prv->crt->n) != RLC_LT) {
+		return RLC_ERR;
+	}
 
 	RLC_TRY {
 		bn_new(r);
@@ -162,6 +166,10 @@ int cp_shpe_enc(bn_t c, const bn_t m, const shpe_t pub) {
 		return RLC_ERR;
 	}
 #endif
+	/* The plaintext space is [0, n - 1]. */
+	if (bn_sign(m) == RLC_NEG || bn_cmp(m, pub->crt->n) != RLC_LT) {
+		return RLC_ERR;
+	}
 
 	RLC_TRY {
 		bn_new(r);
